@@ -132,6 +132,22 @@ let () =
                if res = [] then "none" else String.concat " " (List.map (fun succ -> if succ = [] then "-" else String.concat ";" (List.map string_of_space succ)) res)
            | "forced" ->
                if forced_b (override !net (space_of_string (a 1))) (space_of_string (a 2)) (space_of_string (a 3)) then "1" else "0"
+           | "redok" -> if nfvs_reduction_ok_b !net (space_of_string (a 1)) (spaces_of_string (a 2)) (nats_of_string (a 3)) then "1" else "0"
+           | "heurret" ->
+               let r = heuristic_retained !net (space_of_string (a 1)) (nats_of_string (a 3)) (spaces_of_string (a 2)) in
+               if r = [] then "-" else String.concat "," (List.map (fun (v, b) -> Printf.sprintf "%d:%d" (int_of_nat v) (if b then 1 else 0)) r)
+           | "candpipe" ->
+               (* candpipe SPACE AVOIDS NFVS RINIT THRESHOLD LIMIT BUDGET GREEDY TAPE *)
+               let parse_ret s = List.map (fun kv -> match String.split_on_char ':' kv with
+                                   | [k; v] -> (nat_of_int (int_of_string k), v = "1") | _ -> failwith "ret") (split ',' s) in
+               let str_ret r = if r = [] then "-" else String.concat "," (List.map (fun (v, b) -> Printf.sprintf "%d:%d" (int_of_nat v) (if b then 1 else 0)) r) in
+               let tape = if a 9 = "-" then [] else List.map (fun l -> if l = "~" then [] else states_of_string l) (String.split_on_char '/' (a 9)) in
+               let cfg = { c_threshold = nat_of_int (int_of_string (a 5)); c_limit = nat_of_int (int_of_string (a 6)); c_budget = nat_of_int (int_of_string (a 7)) } in
+               let (res, log) = compute_candidates (nat_of_int 1000) !net (space_of_string (a 1)) (spaces_of_string (a 2)) (nats_of_string (a 3))
+                                  (parse_ret (a 4)) cfg (a 8 = "1") false tape { s_walks = []; s_moves = [] } in
+               let r = (match res with CRaised -> "raised" | CTapeEnd -> "tapeend" | COk l -> "ok:" ^ str_states (List.sort compare l)) in
+               r ^ " log=" ^ (if log = [] then "-" else String.concat "|" (List.map (fun k ->
+                   str_ret k.k_ret ^ "@" ^ (match k.k_limit with None -> "-" | Some l -> string_of_int (int_of_nat l))) log))
            | "attractors" ->
                let l = get_attrs () in
                if l = [] then "-" else String.concat " " (List.map str_states l)
